@@ -6,9 +6,34 @@ import libmodel as L
 
 
 def fc(prog):
+    """the flow-control type and its cells.  The two counters are its AtomicU64 fields, the two limits its plain u64 fields --
+    directly, or grouped in a struct-typed field (`limits: Limits { bytes, messages }`); `bytes` / `messages` in the name pairs
+    a counter with its limit."""
     A = prog.anchors
     ty = A.ty("FlowControl")
-    cells = {k: A.cell("FlowControl", k) for k in ("max_outstanding_bytes", "max_outstanding_messages", "outstanding_bytes", "outstanding_messages", "notifier")}
+    adt = prog.facts.adt(ty)
+    cells = {}
+
+    def scan(owner, adt2, depth):
+        for f in adt2["variants"][0]["fields"]:
+            fty, name = f["ty"], f["name"]
+            kind = "bytes" if "byte" in name else ("messages" if "message" in name else None)
+            if ("AtomicU64" in fty or "atomic::Atomic<u64>" in fty) and kind and owner == ty:
+                cells.setdefault("outstanding_" + kind, (owner, name))
+            elif fty == "u64" and kind:
+                cells.setdefault("max_outstanding_" + kind, (owner, name))
+            elif "Notify" in fty and owner == ty:
+                cells.setdefault("notifier", (owner, name))
+            elif fty.startswith("crate::") and depth < 2:
+                sub = prog.facts.adt(fty)
+                if sub is not None and len(sub["variants"]) == 1:
+                    scan(fty, sub, depth + 1)
+
+    if adt is not None and len(adt["variants"]) == 1:
+        scan(ty, adt, 0)
+    missing = [k for k in ("max_outstanding_bytes", "max_outstanding_messages", "outstanding_bytes", "outstanding_messages", "notifier") if k not in cells]
+    if missing:
+        raise CheckBroken("flow-control cells not found: %s" % missing)
     return ty, cells
 
 
@@ -180,6 +205,9 @@ def r19_3(prog, out):
         bi = prog.info(b.id)
         nots = [e for e in effs if e.touches(cells["notifier"]) and e.kind in ("notify_one", "notify_waiters") and not e.chain]
         key = "updater:%s" % prog.short(b.id)
+        if all(e.lib.split("::")[-1] in ("fetch_add", "fetch_max") for e in ups) and not any(e.kind == "notify_one" for e in nots):
+            out.holds(key, prog.loc(b.id), "only takes up space (fetch_add): no waiter can become runnable through it" + ("; notifies anyway" if nots else ""))
+            continue
         if not nots:
             out.violation(key, prog.loc(b.id), "%s changes the outstanding counters without notifying: waiters are never released" % prog.short(b.id))
             continue
@@ -246,29 +274,51 @@ def r19_4(prog, out):
         # path enumeration
         bad = {}
         answered_true = 0
-        stack = [(0, (("outstanding_messages", ALL), ("outstanding_bytes", ALL)), None, (0,))]
+        # state: block, relations per counter, value of the return place, values of bool locals assigned on the path
+        #   a value is ("const", bool) | ("cmp", comparison local, negated) | ("unknown",)
+        stack = [(0, (("outstanding_messages", ALL), ("outstanding_bytes", ALL)), None, (0,), ())]
         steps = 0
         while stack and steps < 5000:
             steps += 1
-            bb, rels, ret, trail = stack.pop()
+            bb, rels, ret, trail, envt = stack.pop()
             rel = dict(rels)
+            env = dict(envt)
             blk = b.blocks[bb]
+
+            def value_of(op):
+                if op.const_bool() is not None:
+                    return ("const", op.const_bool())
+                if op.place is not None and op.place.is_local():
+                    l = op.place.local
+                    if l in env:
+                        return env[l]
+                    if l in alias:
+                        return ("cmp",) + alias[l]
+                    if l in cmps:
+                        return ("cmp", l, False)
+                return ("unknown",)
+
+            def negate(v):
+                if v[0] == "const":
+                    return ("const", not v[1])
+                if v[0] == "cmp":
+                    return ("cmp", v[1], not v[2])
+                return v
+
             for s in blk.stmts:
-                if s.k == "assign" and s.lhs.is_local() and s.lhs.local == 0:
-                    if s.rv.k == "use" and s.rv.ops[0].const_bool() is not None:
-                        ret = ("const", s.rv.ops[0].const_bool())
-                    elif s.rv.k == "use" and s.rv.ops[0].place is not None and s.rv.ops[0].place.is_local() and s.rv.ops[0].place.local in alias:
-                        ret = ("cmp",) + alias[s.rv.ops[0].place.local]
-                    elif s.rv.k == "bin" and False:
-                        pass
-                    else:
-                        ret = ("unknown",)
-                elif s.k == "assign" and s.lhs.is_local() and s.lhs.local in cmps and ret is None:
-                    pass
-            # `_0 = Lt(a, b)` written straight into the return place
-            for s in blk.stmts:
-                if s.k == "assign" and s.lhs.is_local() and s.lhs.local == 0 and s.rv.k == "bin" and 0 in cmps:
-                    ret = ("cmp", 0, False)
+                if s.k != "assign" or not s.lhs.is_local():
+                    continue
+                v = None
+                if s.rv.k == "use":
+                    v = value_of(s.rv.ops[0])
+                elif s.rv.k == "un" and s.rv.j.get("op") == "Not":
+                    v = negate(value_of(s.rv.ops[0]))
+                elif s.rv.k == "bin" and s.lhs.local in cmps:
+                    v = ("cmp", s.lhs.local, False)
+                if s.lhs.local == 0:
+                    ret = v if v is not None else ("unknown",)
+                elif v is not None and b.local_ty(s.lhs.local) == "bool":
+                    env[s.lhs.local] = v
             t = blk.term
             if t.k == "return":
                 finals = []
@@ -291,6 +341,7 @@ def r19_4(prog, out):
                             bad.setdefault(c, (trail, fr[c]))
                 continue
             succs = bi.cfg.succ[bb]
+            envt2 = tuple(sorted(env.items()))
             if bb in decide:
                 cl, tr, fa = decide[bb]
                 counter, rt, cbb, _ = cmps[cl]
@@ -300,12 +351,32 @@ def r19_4(prog, out):
                     r2 = dict(rel)
                     r2[counter] = r2[counter] & rr
                     if r2[counter]:
-                        stack.append((tgt, tuple(sorted(r2.items())), ret, trail + (tgt,)))
+                        stack.append((tgt, tuple(sorted(r2.items())), ret, trail + (tgt,), envt2))
+                continue
+            if t.k == "switch" and t.discr is not None and t.discr.place is not None and t.discr.place.is_local() and t.discr.place.local in env:
+                # a bool assigned on this path (the value of `a || b`)
+                v = env[t.discr.place.local]
+                arms = dict(t.arms)
+                fa_t, tr_t = arms.get(0), t.otherwise
+                for tgt, truth in ((tr_t, True), (fa_t, False)):
+                    if tgt is None or tgt in trail:
+                        continue
+                    r2 = dict(rel)
+                    if v[0] == "const":
+                        if v[1] != truth:
+                            continue
+                    elif v[0] == "cmp":
+                        counter, rt, cbb, _ = cmps[v[1]]
+                        want_true = truth != v[2]
+                        r2[counter] = r2[counter] & (rt if want_true else frozenset(ALL - rt))
+                        if not r2[counter]:
+                            continue
+                    stack.append((tgt, tuple(sorted(r2.items())), ret, trail + (tgt,), envt2))
                 continue
             for s2 in succs:
                 if s2 in trail:
                     continue
-                stack.append((s2, tuple(sorted(rel.items())), ret, trail + (s2,)))
+                stack.append((s2, tuple(sorted(rel.items())), ret, trail + (s2,), envt2))
         for c in pairs:
             key = "%s:%s" % (prog.short(cid), c)
             mine = [v for v in cmps.values() if v[0] == c]
